@@ -42,6 +42,7 @@ type Gen struct {
 
 func Load(repo string) (*Gen, error) {
 	loadNeverAssume()
+	loadSigs()
 	cfg := &packages.Config{Mode: packages.LoadAllSyntax, Dir: repo, BuildFlags: []string{"-tags=verif"},
 		Env: append(os.Environ(), "GOFLAGS=-mod=mod", "GOPROXY=off", "GOSUMDB=off", "GOTOOLCHAIN=local")}
 	pkgs, err := packages.Load(cfg, "./", "./ast", "./token", "./char")
